@@ -60,6 +60,36 @@ fn native_spec() {
         if m.try_remove_one::<u16>("port").ok().flatten() != Some(80) || m.try_get_one::<u16>("port").ok().flatten().is_some() {
             println!("SPEC-REPLAY MISMATCH target={target} case=a correctly typed remove did not take the value out");
         }
+    } else if target == "match_arg_error" {
+        // C10: the error kind names a rule the input really breaks
+        for acws in [false, true] {
+            for prior in [false, true] {
+                for tok in ["buidl", "qqqq"] {
+                    let cmd = Command::new("p")
+                        .args_conflicts_with_subcommands(acws)
+                        .arg(Arg::new("flag").long("flag").action(ArgAction::SetTrue))
+                        .subcommand(Command::new("build"))
+                        .subcommand(Command::new("test"));
+                    let mut argv = vec!["p"];
+                    if prior {
+                        argv.push("--flag");
+                    }
+                    argv.push(tok);
+                    match cmd.try_get_matches_from(argv.clone()) {
+                        Ok(_) => println!("SPEC-REPLAY MISMATCH target=match_arg_error case={argv:?}: unknown token accepted"),
+                        Err(e) => {
+                            let k = e.kind();
+                            if k == ErrorKind::ArgumentConflict && !(acws && prior) {
+                                println!("SPEC-REPLAY MISMATCH target=match_arg_error case={argv:?} args_conflicts_with_subcommands={acws}: reported ArgumentConflict although no argument precedes the token");
+                            }
+                            if !(acws && prior) && tok == "buidl" && k != ErrorKind::InvalidSubcommand {
+                                println!("SPEC-REPLAY MISMATCH target=match_arg_error case={argv:?} args_conflicts_with_subcommands={acws}: a mistyped subcommand is reported as {k:?}, expected InvalidSubcommand");
+                            }
+                        }
+                    }
+                }
+            }
+        }
     } else if target == "validate_exclusive" {
         // C03: an exclusive argument is present alone.  a, b exclusive; c ordinary; d has a default.
         for bits in 0..8u8 {
